@@ -1083,9 +1083,14 @@ def m_as_ref(E, st, f, a, k, e):
     E.match_option(st, v, lambda s, x: k(s, SOME(tmp_ref(s, x) if not (isinstance(x, tuple) and x[0] in ('f', 'd', 'down')) else ('r', x))), lambda s: k(s, NONE))
 
 
-@model(OPT + 'copied', OPT + 'cloned')
+@model(OPT + 'copied', OPT + 'cloned', 'core::option::Option::<&T>::copied', 'core::option::Option::<&T>::cloned', 'core::option::Option::<&mut T>::copied', 'core::option::Option::<&mut T>::cloned')
 def m_copied(E, st, f, a, k, e):
     E.match_option(st, a[0], lambda s, x: k(s, SOME(E.deref_arg(s, x))), lambda s: k(s, NONE))
+
+
+@model('core::option::Option::<core::option::Option<T>>::flatten')
+def m_flatten(E, st, f, a, k, e):
+    E.match_option(st, a[0], lambda s, x: k(s, x), lambda s: k(s, NONE))
 
 
 @model(OPT + 'take')
